@@ -899,9 +899,89 @@ fn payment_outcome_probe(a: &mut Vec<i128>) -> String {
 	verdict
 }
 
-/// payment_outcome_battery: scenarios 1-5 of payment_outcome_probe. Output: `<scenarios that failed or panicked> <scenarios run>`.
+/// mpp_outcome_probe: four live nodes in a diamond (0 - 1 - 3, 0 - 2 - 3); node 0 pays node 3 in two parts with no retries.
+/// The part via node 1 reaches the recipient, the part via node 2 is sent by node 0 but not delivered any further (it
+/// stays in flight). The recipient gives up waiting for the rest (MPP timeout) and fails the part it holds back to
+/// node 0. At that moment the payment still has an HTLC in flight: node 0 must report the path failure and NO terminal
+/// event. Output: `1` if so, `0 <what>` otherwise.
+fn mpp_outcome_probe(_a: &mut Vec<i128>) -> String {
+	use lightning::events::{Event, HTLCHandlingFailureType};
+	use lightning::ln::channelmanager::PaymentId;
+	use lightning::ln::msgs::{ChannelMessageHandler, MessageSendEvent};
+	use lightning::ln::outbound_payment::{RecipientOnionFields, Retry};
+	use lightning::routing::router::{PaymentParameters, RouteParameters, Router};
+	let chanmon_cfgs = create_chanmon_cfgs(4);
+	let node_cfgs = create_node_cfgs(4, &chanmon_cfgs);
+	let mut legacy_cfg = test_legacy_channel_config();
+	legacy_cfg.channel_handshake_config.announced_channel_max_inbound_htlc_value_in_flight_percentage = 10;
+	let configs: [Option<lightning::util::config::UserConfig>; 4] = core::array::from_fn(|_| Some(legacy_cfg.clone()));
+	let node_chanmgrs = create_node_chanmgrs(4, &node_cfgs, &configs);
+	let nodes = create_network(4, &node_cfgs, &node_chanmgrs);
+	let ids: Vec<_> = nodes.iter().map(|n| n.node.get_our_node_id()).collect();
+	create_announced_chan_between_nodes(&nodes, 0, 1);
+	create_announced_chan_between_nodes_with_value(&nodes, 0, 2, 1_000_000, 0);
+	let chan_13 = create_announced_chan_between_nodes_with_value(&nodes, 1, 3, 1_000_000, 0).2;
+	create_announced_chan_between_nodes(&nodes, 2, 3);
+	let (_preimage, hash, payment_secret) = get_payment_preimage_hash(&nodes[3], None, None);
+	let payment_params = PaymentParameters::from_node_id(ids[3], TEST_FINAL_CLTV).with_bolt11_features(nodes[3].node.bolt11_invoice_features()).unwrap();
+	let amt_msat = 10_000_000;
+	let route_params = RouteParameters::from_payment_params_and_value(payment_params, amt_msat);
+	let inflight = nodes[0].node.compute_inflight_htlcs();
+	let route = nodes[0].router.find_route(&ids[0], &route_params, None, inflight).unwrap();
+	if route.paths.len() != 2 {
+		return format!("error expected a two-part route, got {} parts", route.paths.len());
+	}
+	nodes[0].router.expect_find_route(route_params.clone(), Ok(route.clone()));
+	nodes[0].node.send_payment(hash, RecipientOnionFields::secret_only(payment_secret, amt_msat), PaymentId(hash.0), route_params, Retry::Attempts(0)).unwrap();
+	check_added_monitors(&nodes[0], 2);
+	let mut send_msgs = nodes[0].node.get_and_clear_pending_msg_events();
+	send_msgs.sort_by(|x, _| {
+		let id = if let MessageSendEvent::UpdateHTLCs { node_id, .. } = x { node_id } else { panic!() };
+		if *id == ids[1] { core::cmp::Ordering::Less } else { core::cmp::Ordering::Greater }
+	});
+	let msg_via_1 = send_msgs.remove(0);
+	pass_along_path(&nodes[0], &[&nodes[1], &nodes[3]], amt_msat, hash, Some(payment_secret), msg_via_1, false, None);
+	// the recipient waits for the second part in vain
+	for _ in 0..3 {
+		nodes[3].node.timer_tick_occurred();
+	}
+	expect_and_process_pending_htlcs_and_htlc_handling_failed(&nodes[3], &[HTLCHandlingFailureType::Receive { payment_hash: hash }]);
+	check_added_monitors(&nodes[3], 1);
+	let upd = get_htlc_update_msgs(&nodes[3], &ids[1]);
+	nodes[1].node.handle_update_fail_htlc(ids[3], &upd.update_fail_htlcs[0]);
+	do_commitment_signed_dance(&nodes[1], &nodes[3], &upd.commitment_signed, false, false);
+	expect_and_process_pending_htlcs_and_htlc_handling_failed(&nodes[1], &[HTLCHandlingFailureType::Forward { node_id: Some(ids[3]), channel_id: chan_13 }]);
+	check_added_monitors(&nodes[1], 1);
+	let upd = get_htlc_update_msgs(&nodes[1], &ids[0]);
+	nodes[0].node.handle_update_fail_htlc(ids[1], &upd.update_fail_htlcs[0]);
+	do_commitment_signed_dance(&nodes[0], &nodes[1], &upd.commitment_signed, false, false);
+	let evs = nodes[0].node.get_and_clear_pending_events();
+	let n_path = evs.iter().filter(|e| matches!(e, Event::PaymentPathFailed { .. })).count();
+	let n_failed = evs.iter().filter(|e| matches!(e, Event::PaymentFailed { .. })).count();
+	let n_sent = evs.iter().filter(|e| matches!(e, Event::PaymentSent { .. })).count();
+	let verdict = if n_failed != 0 {
+		String::from("0 PaymentFailed while an HTLC of the payment is still in flight")
+	} else if n_path != 1 || n_sent != 0 {
+		format!("0 {} path failures, {} PaymentSent for one failed part", n_path, n_sent)
+	} else {
+		String::from("1")
+	};
+	for n in nodes.iter() {
+		n.node.get_and_clear_pending_msg_events();
+		n.node.get_and_clear_pending_events();
+		n.chain_monitor.added_monitors.lock().unwrap().clear();
+	}
+	core::mem::forget(nodes);
+	verdict
+}
+
+/// payment_outcome_battery: scenarios 1-5 of payment_outcome_probe and mpp_outcome_probe. Output: `<scenarios that failed or panicked> <scenarios run>`.
 fn payment_outcome_battery(_a: &mut Vec<i128>) -> String {
-	let (mut bad, mut total) = (0u32, 0u32);
+	let (mut bad, mut total) = (0u32, 1u32);
+	match catch_unwind(AssertUnwindSafe(|| mpp_outcome_probe(&mut vec![]))) {
+		Ok(v) if v == "1" => {},
+		_ => bad += 1,
+	}
 	for sc in 1i128..=5 {
 		total += 1;
 		match catch_unwind(AssertUnwindSafe(|| payment_outcome_probe(&mut vec![sc]))) {
@@ -1019,6 +1099,7 @@ fn main() {
 			"monitor_update_battery" => monitor_update_battery(&mut args),
 			"payment_outcome_probe" => payment_outcome_probe(&mut args),
 			"payment_outcome_battery" => payment_outcome_battery(&mut args),
+			"mpp_outcome_probe" => mpp_outcome_probe(&mut args),
 			"persister_battery" => persister_battery(&mut args),
 			"closing_probe" => closing_probe(&mut args),
 			"prune_probe" => prune_probe(&mut args),
